@@ -79,7 +79,7 @@ def strategy(tier, sub=None):
 
 
 def budget(tier, sub=None):
-    return {"examples": 19200 if tier == "quick" else 250000, "shards": 16}
+    return {"examples": 19200 if tier == "quick" else 800000, "shards": 16}
 
 
 def run_case(spec, sub=None):
